@@ -43,14 +43,14 @@ def strip_instance(key):
 
 
 def plan(tier, seed):
-    n = 6 if tier == 'quick' else 80
+    n = 6 if tier == 'quick' else 160
     sp = []
     for y in (2021, 2022, 2023):
         for part in range(4):
             sp.append({'kind': 'gates', 'year': y, 'part': part, 'of': 4, 'n': n})
         sp.append({'kind': 'limits', 'year': y})
         if tier != 'quick':
-            sp.append({'kind': 'multi', 'year': y, 'n': 300})
+            sp.append({'kind': 'multi', 'year': y, 'n': 1000})
     return sp
 
 
